@@ -1,151 +1,95 @@
-import MJ.Proofs.ExprSim
-import MJ.Proofs.EvalFrame
+import MJ.Proofs.StmtRel
 /-!
-# Statements compile correctly: text, emit, set, if (C03 stage 3)
+# Statements compile correctly (C03 stage 3)
 
-`relStmt` / `relBlock` are the code of a statement without back-patching, `cStmt_eq_rel` shows the
-back-patching generator produces it, `sim_stmt_all` is the simulation (by induction on the fuel of
-the reference execution) and `vm_refines_eval_partial` the resulting refinement theorem for whole
-templates of the fragment.
+Simulation between the reference semantics (`exec`, scopes as heap cells) and the model VM (frames)
+for the statements of `simpleStmt`: text, emit, `set`, `if`, `with`, `for`.  The relation `Rel`
+pairs the visible cells with the frames (`FramesRel`: same answer for every variable, including
+`loop`), the output with the innermost capture buffer.  By induction on the fuel of the reference
+execution, for statements, blocks, `with` bindings and loop iterations together (`sim_stmt_all`);
+`vm_refines_eval_partial` is the resulting theorem about whole templates.
 -/
-namespace MJ.Compile
-open MJ.Eval
-
-mutual
-  /-- the stage-3 statement fragment: text, `{{ e }}`, `set x = e`, `if` / `elif` / `else` -/
-  def simpleStmt : Stmt → Bool
-    | .text _ => true
-    | .emit e => simpleExpr e
-    | .set (.var _) e => simpleExpr e
-    | .ifS c t f => simpleExpr c && simpleBlock t && simpleBlock f
-    | _ => false
-  def simpleBlock : List Stmt → Bool
-    | [] => true
-    | s :: rest => simpleStmt s && simpleBlock rest
-end
-
-mutual
-  def relStmt : Stmt → Nat → Aux → List Instr × Aux
-    | .text t, _, a => ([.emitRaw t], a)
-    | .emit e, base, a => ((relExpr e base a).1 ++ [.emit], (relExpr e base a).2)
-    | .set (.var x) e, base, a => ((relExpr e base a).1 ++ [.storeLocal x], (relExpr e base a).2)
-    | .ifS c t [], base, a =>
-      let rc := relExpr c base a
-      let rt := relBlock t (base + rc.1.length + 1) rc.2
-      (rc.1 ++ [.jumpIfFalse (base + rc.1.length + 1 + rt.1.length)] ++ rt.1, rt.2)
-    | .ifS c t (f :: fs), base, a =>
-      let rc := relExpr c base a
-      let rt := relBlock t (base + rc.1.length + 1) rc.2
-      let fb := base + rc.1.length + 1 + rt.1.length + 1
-      let rf := relBlock (f :: fs) fb rt.2
-      (rc.1 ++ [.jumpIfFalse fb] ++ rt.1 ++ [.jump (fb + rf.1.length)] ++ rf.1, rf.2)
-    | _, _, a => ([], a.markOof)
-  def relBlock : List Stmt → Nat → Aux → List Instr × Aux
-    | [], _, a => ([], a)
-    | s :: rest, base, a =>
-      let rs := relStmt s base a
-      let rr := relBlock rest (base + rs.1.length) rs.2
-      (rs.1 ++ rr.1, rr.2)
-end
-
-theorem endIf_noelse (A : List Instr) (P : List Pending) (a : Aux) (C : List Instr × Aux) (n : Nat)
-    (hn : n = A.length) :
-    (({ code := A ++ Instr.jumpIfFalse unpatched :: [], pending := .branch n :: P, aux := a } : CG).extend C).endIf =
-      { code := A ++ Instr.jumpIfFalse (A.length + 1 + C.1.length) :: C.1, pending := P, aux := C.2 } := by
-  subst hn
-  simp only [CG.endIf, CG.endCondition, CG.extend, CG.next]
-  rw [patch_jif _ A C.1 _ unpatched _ (by simp) rfl]
-  simp [Nat.add_assoc]; omega
-
-theorem if_block_noelse (g : CG) (Cc Ct : List Instr × Aux) :
-    ((g.extend Cc).startIf.extend Ct).endIf =
-      g.extend (Cc.1 ++ [Instr.jumpIfFalse (g.next + Cc.1.length + 1 + Ct.1.length)] ++ Ct.1, Ct.2) := by
-  rw [startIf_extend, endIf_noelse _ _ _ _ _ (by simp [CG.next])]
-  simp [CG.extend, CG.next, Nat.add_assoc]
-
-mutual
-theorem cStmt_eq_rel : ∀ (st : Stmt) (g : CG), simpleStmt st = true →
-    cStmt st g = g.extend (relStmt st g.next g.aux)
-  | .text t, g, _ => by simp [cStmt, relStmt, CG.add_eq_extend]
-  | .emit e, g, h => by
-    have hs : simpleExpr e = true := by simpa [simpleStmt] using h
-    simp [cStmt, relStmt, cExpr_eq_rel e g hs]
-  | .set (.var x) e, g, h => by
-    have hs : simpleExpr e = true := by simpa [simpleStmt] using h
-    simp [cStmt, relStmt, cTarget, cExpr_eq_rel e g hs]
-  | .set (.tuple _) _, _, h => by simp [simpleStmt] at h
-  | .ifS c t [], g, h => by
-    have hs : simpleExpr c = true ∧ simpleBlock t = true := by simpa [simpleStmt, simpleBlock] using h
-    simp only [cStmt, relStmt]
-    rw [cExpr_eq_rel c g hs.1, cBlock_eq_rel t _ hs.2, if_block_noelse]
-    simp [Nat.add_assoc]
-  | .ifS c t (f :: fs), g, h => by
-    have hs : (simpleExpr c = true ∧ simpleBlock t = true) ∧ simpleBlock (f :: fs) = true := by
-      simpa [simpleStmt] using h
-    simp only [cStmt, relStmt]
-    rw [cExpr_eq_rel c g hs.1.1, cBlock_eq_rel t _ hs.1.2, cBlock_eq_rel (f :: fs) _ hs.2, if_block]
-    simp [Nat.add_assoc]
-  | .forS .., _, h => by simp [simpleStmt] at h
-  | .setBlock .., _, h => by simp [simpleStmt] at h
-  | .withS .., _, h => by simp [simpleStmt] at h
-  | .filterBlock .., _, h => by simp [simpleStmt] at h
-  | .macroS .., _, h => by simp [simpleStmt] at h
-  | .callBlock .., _, h => by simp [simpleStmt] at h
-  | .breakS, _, h => by simp [simpleStmt] at h
-  | .continueS, _, h => by simp [simpleStmt] at h
-theorem cBlock_eq_rel : ∀ (ss : List Stmt) (g : CG), simpleBlock ss = true →
-    cBlock ss g = g.extend (relBlock ss g.next g.aux)
-  | [], g, _ => by simp [cBlock, relBlock, CG.extend]
-  | s :: rest, g, h => by
-    have hs : simpleStmt s = true ∧ simpleBlock rest = true := by simpa [simpleBlock] using h
-    simp only [cBlock, relBlock]
-    rw [cStmt_eq_rel s g hs.1, cBlock_eq_rel rest _ hs.2]
-    simp [CG.extend_extend]
-end
-
-end MJ.Compile
 namespace MJ.Vm
 open MJ.Eval MJ.Compile MJ.C03
 
-theorem lookupFrames_storeLocal (ctx : Scope) (x y : String) (v : Val) (f : Frame) (rest : List Frame) :
-    lookupFrames ctx y (storeLocal x v (f :: rest)) =
-      if y = x then v else lookupFrames ctx y (f :: rest) := by
-  by_cases h : y = x
-  · subst h; simp [storeLocal, lookupFrames, assocGet_assocSet_same]
-  · simp [storeLocal, lookupFrames, assocGet_assocSet_other x y v _ h, h]
+/-- what one frame answers for a variable -/
+def frameLookup (f : Frame) (x : String) : Option Val :=
+  match assocGet x f.locals with
+  | some v => some v
+  | none =>
+    match f.loop with
+    | some l => if l.withLoopVar && x == "loop" then some (loopVal l.info) else none
+    | none => none
 
-theorem lookupIn_heapSet_other (heap : Heap) (cell : Nat) (x y : String) (v : Val) (hne : y ≠ x) :
-    ∀ ids : List Nat, lookupIn (heapSet heap cell x v) y ids = lookupIn heap y ids := by
+theorem lookupFrames_cons (ctx : Scope) (x : String) (f : Frame) (rest : List Frame) :
+    lookupFrames ctx x (f :: rest) = match frameLookup f x with
+      | some v => v
+      | none => lookupFrames ctx x rest := by
+  simp only [lookupFrames, frameLookup]
+  cases assocGet x f.locals with
+  | some v => rfl
+  | none =>
+    cases f.loop with
+    | none => rfl
+    | some l => by_cases h : (l.withLoopVar && x == "loop") = true <;> simp [h]
+
+/-- frame `i` of the VM and scope cell `stack[i]` of the reference semantics answer alike -/
+def FramesRel (heap : Heap) : List Nat → List Frame → Prop
+  | [], [] => True
+  | id :: ids, f :: fs => (∃ cell, heap[id]? = some cell ∧ ∀ x, assocGet x cell = frameLookup f x) ∧ FramesRel heap ids fs
+  | _, _ => False
+
+theorem FramesRel.envRel {ctx heap} : ∀ {stack frames}, FramesRel heap stack frames → EnvRel ctx heap stack frames := by
+  intro stack
+  induction stack with
+  | nil =>
+    intro frames h x
+    cases frames with
+    | nil => simp [lookupFrames, lookup, lookupIn]
+    | cons f fs => simp [FramesRel] at h
+  | cons id ids ih =>
+    intro frames h x
+    cases frames with
+    | nil => simp [FramesRel] at h
+    | cons f fs =>
+      obtain ⟨⟨cell, hc, hag⟩, hrest⟩ := h
+      have := ih hrest x
+      rw [lookupFrames_cons]
+      simp only [lookup, lookupIn, hc, Option.bind_some, hag x] at this ⊢
+      cases frameLookup f x with
+      | some v => rfl
+      | none => simpa [lookup] using this
+
+theorem FramesRel.congr {heap heap' : Heap} : ∀ {ids fs}, (∀ id ∈ ids, heap'[id]? = heap[id]?) →
+    FramesRel heap ids fs → FramesRel heap' ids fs := by
   intro ids
   induction ids with
-  | nil => rfl
+  | nil => intro fs _ h; cases fs <;> simpa [FramesRel] using h
   | cons id rest ih =>
-    simp only [lookupIn]
-    by_cases hid : id = cell
-    · subst hid
-      by_cases hlt : id < heap.length
-      · rw [heapSet_other heap id x y v hne hlt, ih]
-      · have : heapSet heap id x v = heap := by
-          simp [heapSet, List.getElem?_eq_none (Nat.le_of_not_lt hlt)]
-        rw [this]
-    · rw [heapSet_getElem?_ne heap cell id x v hid, ih]
+    intro fs hh h
+    cases fs with
+    | nil => simp [FramesRel] at h
+    | cons f fs' =>
+      obtain ⟨⟨cell, hc, hag⟩, hrest⟩ := h
+      exact ⟨⟨cell, by rw [hh id (by simp)]; exact hc, hag⟩, ih (fun i hi => hh i (by simp [hi])) hrest⟩
 
-theorem lookup_heapSet (ctx : Scope) (heap : Heap) (cell : Nat) (rs : List Nat) (x y : String) (v : Val)
-    (hcell : cell < heap.length) :
-    (lookup ctx (heapSet heap cell x v) (cell :: rs) y).getD .undef =
-      if y = x then v else (lookup ctx heap (cell :: rs) y).getD .undef := by
-  by_cases h : y = x
-  · subst h; simp [lookup_heapSet_same ctx heap cell rs y v hcell]
-  · simp [lookup, lookupIn_heapSet_other heap cell x y v h, h]
-
-/-- the relation between a state of the reference semantics (in scope `stack`) and a VM state:
-same variables, same current output buffer -/
-structure Rel (ctx : Scope) (σ : State) (stack : List Nat) (s : VmState) : Prop where
-  env : EnvRel ctx σ.heap stack s.frames
+/-- the relation between a state of the reference semantics (in scope `stack`) and a VM state -/
+structure Rel (σ : State) (stack : List Nat) (s : VmState) : Prop where
+  frames : FramesRel σ.heap stack s.frames
   out : ∃ rest, s.outs = σ.out :: rest
-  cell : ∃ cell rs, stack = cell :: rs ∧ cell < σ.heap.length
-  frames : s.frames ≠ []
+  bound : ∀ id ∈ stack, id < σ.heap.length
+  nodup : stack.Nodup
+  nonempty : ∃ cell rs, stack = cell :: rs
 
+theorem Rel.env {ctx σ stack s} (h : Rel σ stack s) : EnvRel ctx σ.heap stack s.frames := h.frames.envRel
+
+
+theorem relBinds_oof_mono : ∀ (binds : List (Target × Expr)) (b : Nat) (a : Aux), a.oof = true →
+    (relBinds binds b a).2.oof = true
+  | [], b, a, h => by simp [relBinds, h]
+  | (.var x, e) :: rest, b, a, h => by
+    simp only [relBinds]; exact relBinds_oof_mono rest _ _ (relExpr_oof_mono e b a h)
+  | (.tuple _, _) :: _, b, a, h => by simp [relBinds]
 
 mutual
 theorem relStmt_oof_mono : ∀ (st : Stmt) (b : Nat) (a : Aux), a.oof = true → (relStmt st b a).2.oof = true
@@ -158,9 +102,14 @@ theorem relStmt_oof_mono : ∀ (st : Stmt) (b : Nat) (a : Aux), a.oof = true →
   | .ifS c t (f :: fs), b, a, h => by
     simp only [relStmt]
     exact relBlock_oof_mono (f :: fs) _ _ (relBlock_oof_mono t _ _ (relExpr_oof_mono c b a h))
-  | .forS .., b, a, h => by simp [relStmt]
+  | .withS binds body, b, a, h => by
+    simp only [relStmt]; exact relBlock_oof_mono body _ _ (relBinds_oof_mono binds _ a h)
+  | .forS (.var x) iter none body [], b, a, h => by
+    simp only [relStmt]; exact relBlock_oof_mono body _ _ (relExpr_oof_mono iter b a h)
+  | .forS (.tuple _) _ _ _ _, b, a, h => by simp [relStmt]
+  | .forS (.var _) _ (some _) _ _, b, a, h => by simp [relStmt]
+  | .forS (.var _) _ none _ (_ :: _), b, a, h => by simp [relStmt]
   | .setBlock .., b, a, h => by simp [relStmt]
-  | .withS .., b, a, h => by simp [relStmt]
   | .filterBlock .., b, a, h => by simp [relStmt]
   | .macroS .., b, a, h => by simp [relStmt]
   | .callBlock .., b, a, h => by simp [relStmt]
@@ -177,24 +126,133 @@ theorem oof_false_of_relBlock {ss b a} (h : (relBlock ss b a).2.oof = false) : a
   | false => rfl
   | true => rw [relBlock_oof_mono ss b a ha] at h; cases h
 
-theorem oof_false_of_relStmt {st b a} (h : (relStmt st b a).2.oof = false) : a.oof = false := by
+theorem oof_false_of_relBinds {bs b a} (h : (relBinds bs b a).2.oof = false) : a.oof = false := by
   cases ha : a.oof with
   | false => rfl
-  | true => rw [relStmt_oof_mono st b a ha] at h; cases h
+  | true => rw [relBinds_oof_mono bs b a ha] at h; cases h
 
-/-- what executing the code of a statement (block) achieves -/
+/-- the VM's `StoreLocal x` against `set x` into the innermost cell -/
+theorem Rel.store {σ : State} {cell : Nat} {rs : List Nat} {s : VmState} (h : Rel σ (cell :: rs) s)
+    (x : String) (v : Val) (s' : VmState) (hf : s'.frames = storeLocal x v s.frames) (ho : s'.outs = s.outs) :
+    Rel { σ with heap := heapSet σ.heap cell x v } (cell :: rs) s' := by
+  have hcell : cell < σ.heap.length := h.bound cell (by simp)
+  cases hfr : s.frames with
+  | nil => have := h.frames; rw [hfr] at this; simp [FramesRel] at this
+  | cons f fs =>
+    have hF := h.frames
+    rw [hfr] at hF
+    obtain ⟨⟨c, hc, hag⟩, hrest⟩ := hF
+    refine ⟨?_, by rw [ho]; exact h.out, ?_, h.nodup, h.nonempty⟩
+    · rw [hf, hfr]
+      simp only [storeLocal]
+      refine ⟨⟨assocSet x v c, ?_, ?_⟩, ?_⟩
+      · have := heapSet_getElem?_same σ.heap cell x v hcell
+        rw [List.getElem?_eq_getElem hcell] at hc
+        simp at hc; subst hc; exact this
+      · intro y
+        by_cases hy : y = x
+        · subst hy; simp [frameLookup, assocGet_assocSet_same]
+        · have := hag y
+          simp only [frameLookup, assocGet_assocSet_other x y v _ hy] at this ⊢
+          exact this
+      · refine FramesRel.congr (fun id hid => heapSet_getElem?_ne _ _ _ _ _ ?_) hrest
+        intro e; subst e
+        have := h.nodup; simp at this; exact this.1 hid
+    · intro id hid; simpa [heapSet_length] using h.bound id hid
+
+/-- pushing a fresh cell / frame -/
+theorem Rel.push {σ : State} {stack : List Nat} {s : VmState} (h : Rel σ stack s) (cellv : Scope) (f : Frame)
+    (hag : ∀ x, assocGet x cellv = frameLookup f x) (s' : VmState) (hf : s'.frames = f :: s.frames)
+    (ho : s'.outs = s.outs) :
+    Rel { σ with heap := σ.heap ++ [cellv] } (σ.heap.length :: stack) s' := by
+  refine ⟨?_, by rw [ho]; exact h.out, ?_, ?_, ⟨_, _, rfl⟩⟩
+  · rw [hf]
+    refine ⟨⟨cellv, by simp, hag⟩, FramesRel.congr (fun id hid => ?_) h.frames⟩
+    simp [List.getElem?_append_left (h.bound id hid)]
+  · intro id hid
+    simp at hid ⊢
+    rcases hid with rfl | hid
+    · omega
+    · have := h.bound id hid; omega
+  · simp only [List.nodup_cons]
+    refine ⟨fun hmem => ?_, h.nodup⟩
+    have := h.bound _ hmem; omega
+
+
+/-- what executing the code of a statement (block) achieves: the VM arrives behind the code, the
+operand stack is as before, the relation holds for the new state of the reference semantics, and
+the frame stack has the same shape (only the locals of the innermost frame may differ) -/
 def Done (ctx : Scope) (C : List Instr) (stack : List Nat) (σ' : State) (s : VmState) (endPc : Nat) : Prop :=
-  ∃ s', Reach ctx C s s' ∧ s'.pc = endPc ∧ s'.stack = s.stack ∧ Rel ctx σ' stack s' ∧ s'.outs.tail = s.outs.tail
+  ∃ s', Reach ctx C s s' ∧ s'.pc = endPc ∧ s'.stack = s.stack ∧ Rel σ' stack s' ∧
+    s'.outs.tail = s.outs.tail ∧ s'.frames.tail = s.frames.tail ∧
+    s'.frames.head?.map (·.loop) = s.frames.head?.map (·.loop)
 
 def SimStmt (n : Nat) : Prop :=
   ∀ st ctx stack σ σ' fl, exec n ctx stack σ st = .ok (σ', fl) → simpleStmt st = true →
     ∀ C base a s, At C base (relStmt st base a).1 → (relStmt st base a).2.oof = false → s.pc = base →
-      Rel ctx σ stack s → fl = .normal ∧ Done ctx C stack σ' s (base + (relStmt st base a).1.length)
+      Rel σ stack s → fl = .normal ∧ Done ctx C stack σ' s (base + (relStmt st base a).1.length)
 
 def SimBlock (n : Nat) : Prop :=
   ∀ ss ctx stack σ σ' fl, execBlock n ctx stack σ ss = .ok (σ', fl) → simpleBlock ss = true →
     ∀ C base a s, At C base (relBlock ss base a).1 → (relBlock ss base a).2.oof = false → s.pc = base →
-      Rel ctx σ stack s → fl = .normal ∧ Done ctx C stack σ' s (base + (relBlock ss base a).1.length)
+      Rel σ stack s → fl = .normal ∧ Done ctx C stack σ' s (base + (relBlock ss base a).1.length)
+
+def SimBinds (n : Nat) : Prop :=
+  ∀ binds ctx stack heap heap' out, bindWith n ctx heap stack binds = .ok heap' → simpleBinds binds = true →
+    ∀ C base a s, At C base (relBinds binds base a).1 → (relBinds binds base a).2.oof = false → s.pc = base →
+      Rel { heap := heap, out := out } stack s →
+      Done ctx C stack { heap := heap', out := out } s (base + (relBinds binds base a).1.length)
+
+theorem storeLocal_tail (x : String) (v : Val) (fs : List Frame) : (storeLocal x v fs).tail = fs.tail := by
+  cases fs <;> rfl
+
+theorem storeLocal_headLoop (x : String) (v : Val) (fs : List Frame) :
+    (storeLocal x v fs).head?.map (·.loop) = fs.head?.map (·.loop) := by
+  cases fs <;> rfl
+
+theorem Done.refl {ctx C stack σ s} (h : Rel σ stack s) : Done ctx C stack σ s s.pc :=
+  ⟨s, Reach.refl _, rfl, rfl, h, rfl, rfl, rfl⟩
+
+/-- evaluate `e`, then `StoreLocal x`: the code of `set x = e` and of one `with` binding -/
+theorem sim_assign {n ctx cell rs σ e v x} (hv : evalExpr n ctx σ.heap (cell :: rs) e = .ok v)
+    (hse : simpleExpr e = true) {C base a s}
+    (hAt : At C base ((relExpr e base a).1 ++ [.storeLocal x])) (hoof : (relExpr e base a).2.oof = false)
+    (hpc : s.pc = base) (hrel : Rel σ (cell :: rs) s) :
+    Done ctx C (cell :: rs) { σ with heap := heapSet σ.heap cell x v } s (base + (relExpr e base a).1.length + 1) := by
+  have r1 := relExpr_correct hv hse hAt.left hoof hpc hrel.env
+  refine ⟨{ s with pc := base + (relExpr e base a).1.length + 1, frames := storeLocal x v s.frames },
+    r1.trans (Reach.one' (i := .storeLocal x) _ hAt.right.head rfl (by simp [MJ.Vm.step])),
+    rfl, rfl, hrel.store x v _ rfl rfl, rfl, storeLocal_tail _ _ _, storeLocal_headLoop _ _ _⟩
+
+theorem sim_binds_step {n} (ihW : SimBinds n) : SimBinds (n + 1) := by
+  intro binds ctx stack heap heap' out hev hs C base a s hAt hoof hpc hrel
+  cases binds with
+  | nil =>
+    simp [bindWith] at hev; subst hev
+    simp only [relBinds, List.length_nil, Nat.add_zero]
+    rw [← hpc]; exact Done.refl hrel
+  | cons b rest =>
+    obtain ⟨t, e⟩ := b
+    cases t with
+    | tuple ts => simp [simpleBinds] at hs
+    | var x =>
+      have hs' : simpleExpr e = true ∧ simpleBinds rest = true := by simpa [simpleBinds] using hs
+      obtain ⟨cell, rs, hstack⟩ := hrel.nonempty
+      subst hstack
+      simp only [bindWith, topCell] at hev
+      split at hev
+      · simp at hev
+      · rename_i v hv
+        simp only [bindTarget, heapSetAll] at hev
+        simp only [relBinds] at hAt hoof ⊢
+        have ho1 := oof_false_of_relBinds hoof
+        obtain ⟨s1, r1, hpc1, hst1, hrel1, hout1, htl1, hhd1⟩ :=
+          sim_assign (σ := { heap := heap, out := out }) hv hs'.1 hAt.left ho1 hpc hrel
+        obtain ⟨s2, r2, hpc2, hst2, hrel2, hout2, htl2, hhd2⟩ :=
+          ihW rest ctx (cell :: rs) _ heap' out hev hs'.2 C (base + (relExpr e base a).1.length + 1) (relExpr e base a).2 s1
+            (At.cast hAt.right (by simp [Nat.add_assoc])) hoof hpc1 hrel1
+        exact ⟨s2, r1.trans r2, by rw [hpc2]; simp only [List.length_append, List.length_cons, List.length_nil]; omega, hst2.trans hst1, hrel2,
+          hout2.trans hout1, htl2.trans htl1, hhd2.trans hhd1⟩
 
 theorem sim_block_step {n} (ihS : SimStmt n) (ihB : SimBlock n) : SimBlock (n + 1) := by
   intro ss ctx stack σ σ' fl hev hs C base a s hAt hoof hpc hrel
@@ -202,8 +260,9 @@ theorem sim_block_step {n} (ihS : SimStmt n) (ihB : SimBlock n) : SimBlock (n + 
   | nil =>
     simp [execBlock] at hev
     obtain ⟨rfl, rfl⟩ := hev
-    refine ⟨rfl, s, Reach.refl _, ?_, rfl, hrel, rfl⟩
-    simp [relBlock, hpc]
+    refine ⟨rfl, ?_⟩
+    simp only [relBlock, List.length_nil, Nat.add_zero]
+    rw [← hpc]; exact Done.refl hrel
   | cons st rest =>
     have hs' : simpleStmt st = true ∧ simpleBlock rest = true := by simpa [simpleBlock] using hs
     simp only [relBlock] at hAt hoof ⊢
@@ -212,33 +271,129 @@ theorem sim_block_step {n} (ihS : SimStmt n) (ihB : SimBlock n) : SimBlock (n + 
     split at hev
     · simp at hev
     · rename_i σ1 h1
-      obtain ⟨_, s1, r1, hpc1, hst1, hrel1, hout1⟩ := ihS st ctx stack σ σ1 .normal h1 hs'.1 C base a s hAt.left ho1 hpc hrel
-      obtain ⟨hfl, s2, r2, hpc2, hst2, hrel2, hout2⟩ :=
+      obtain ⟨_, s1, r1, hpc1, hst1, hrel1, hout1, htl1, hhd1⟩ := ihS st ctx stack σ σ1 .normal h1 hs'.1 C base a s hAt.left ho1 hpc hrel
+      obtain ⟨hfl, s2, r2, hpc2, hst2, hrel2, hout2, htl2, hhd2⟩ :=
         ihB rest ctx stack σ1 σ' fl hev hs'.2 C (base + (relStmt st base a).1.length) (relStmt st base a).2 s1
           hAt.right hoof hpc1 hrel1
-      exact ⟨hfl, s2, r1.trans r2, by rw [hpc2]; simp [Nat.add_assoc], hst2.trans hst1, hrel2, hout2.trans hout1⟩
+      exact ⟨hfl, s2, r1.trans r2, by rw [hpc2]; simp [Nat.add_assoc], hst2.trans hst1, hrel2,
+        hout2.trans hout1, htl2.trans htl1, hhd2.trans hhd1⟩
     · rename_i σ1 fl1 hne h1
       have := (ihS st ctx stack σ σ1 fl1 h1 hs'.1 C base a s hAt.left ho1 hpc hrel).1
       exact absurd this (by intro h; exact hne h)
 
 
-theorem Rel.appendOut {ctx σ stack s} (h : Rel ctx σ stack s) (t : String) (s' : VmState)
+theorem Rel.appendOut {σ stack s} (h : Rel σ stack s) (t : String) (s' : VmState)
     (hf : s'.frames = s.frames) (ho : s'.outs = MJ.Vm.appendOut t s.outs) :
-    Rel ctx { σ with out := σ.out ++ t } stack s' ∧ s'.outs.tail = s.outs.tail := by
+    Rel { σ with out := σ.out ++ t } stack s' ∧ s'.outs.tail = s.outs.tail := by
   obtain ⟨rest, hr⟩ := h.out
-  refine ⟨⟨by rw [hf]; exact h.env, ⟨rest, by rw [ho, hr]; rfl⟩, h.cell, by rw [hf]; exact h.frames⟩, ?_⟩
+  refine ⟨⟨by rw [hf]; exact h.frames, ⟨rest, by rw [ho, hr]; rfl⟩, h.bound, h.nodup, h.nonempty⟩, ?_⟩
   rw [ho, hr]; rfl
 
-theorem sim_stmt_step {n} (ihB : SimBlock n) : SimStmt (n + 1) := by
+/-- change only pc / operand stack of the VM state -/
+theorem Rel.same {σ stack s} (h : Rel σ stack s) (s' : VmState) (hf : s'.frames = s.frames) (ho : s'.outs = s.outs) :
+    Rel σ stack s' :=
+  ⟨by rw [hf]; exact h.frames, by rw [ho]; exact h.out, h.bound, h.nodup, h.nonempty⟩
+
+/-- the iterations of a `for x in …` loop: the VM is at the `Iterate` instruction -/
+def SimIters (n : Nat) : Prop :=
+  ∀ ctx stack σ σ' x body xs len idx prev,
+    execIters n ctx stack σ (.var x) body (xs.zip (loopInfosFrom len idx prev xs)) = .ok σ' →
+    x ≠ "loop" → simpleBlock body = true →
+    ∀ C iterPc endPc a (s : VmState) (l : LoopSt) (loc : Scope) (fs : List Frame),
+      C[iterPc]? = some (.iterate endPc) → C[iterPc + 1]? = some (.storeLocal x) →
+      At C (iterPc + 2) (relBlock body (iterPc + 2) a).1 → (relBlock body (iterPc + 2) a).2.oof = false →
+      C[iterPc + 2 + (relBlock body (iterPc + 2) a).1.length]? = some (.jump iterPc) →
+      s.pc = iterPc → s.frames = { locals := loc, loop := some l } :: fs →
+      l.withLoopVar = true → l.len = len → l.calls = idx → l.cur = prev → l.rest = xs →
+      FramesRel σ.heap stack fs → (∃ rest, s.outs = σ.out :: rest) →
+      (∀ id ∈ stack, id < σ.heap.length) → stack.Nodup → (∃ c rs, stack = c :: rs) →
+      ∃ s', Reach ctx C s s' ∧ s'.pc = endPc ∧ s'.stack = s.stack ∧ s'.frames.tail = fs ∧
+        (∃ rest, s'.outs = σ'.out :: rest) ∧ s'.outs.tail = s.outs.tail
+
+
+theorem loop_cell_agrees (x : String) (y : Val) (l' : LoopSt) (info : LoopInfo) (hx : x ≠ "loop")
+    (hw : l'.withLoopVar = true) (hi : l'.info = info) :
+    ∀ z, assocGet z (("loop", loopVal info) :: [(x, y)]) =
+      frameLookup { locals := [(x, y)], loop := some l' } z := by
+  intro z
+  by_cases hz : z = "loop"
+  · subst hz
+    have : ¬ (x = "loop") := hx
+    simp [assocGet, frameLookup, this, hw, hi]
+  · by_cases hzx : x = z
+    · subst hzx; simp [assocGet, frameLookup, Ne.symm hz]
+    · have h1 : ¬ ("loop" = z) := fun h => hz h.symm
+      simp [assocGet, frameLookup, hzx, h1, hw, hz]
+
+theorem sim_iters_step {n} (ihB : SimBlock n) (ihI : SimIters n) : SimIters (n + 1) := by
+  intro ctx stack σ σ' x body xs len idx prev hev hx hsb C iterPc endPc a s l loc fs hIt hSt hAt hoof hJ
+    hpc hfr hwl hlen hcalls hcur hrest hFR hout hbound hnodup hne
+  cases xs with
+  | nil =>
+    simp [loopInfosFrom, execIters] at hev; subst hev
+    refine ⟨{ s with pc := endPc }, Reach.one (i := .iterate endPc) (by rw [hpc]; exact hIt) ?_, rfl, rfl,
+      by simp [hfr], hout, rfl⟩
+    simp [MJ.Vm.step, hfr, nextLoopItem, hrest]
+  | cons y ys =>
+    simp only [loopInfosFrom, List.zip_cons_cons, execIters, bindTarget] at hev
+    split at hev
+    · simp at hev
+    · rename_i σ2 fl hbody
+      -- the two instructions before the body
+      let l' : LoopSt := { l with calls := l.calls + 1, iterated := true, prev := l.cur, cur := some y, rest := ys }
+      let s2 : VmState := { s with pc := iterPc + 2, frames := { locals := [(x, y)], loop := some l' } :: fs }
+      have hreach2 : Reach ctx C s s2 := by
+        refine Reach.cons (i := .iterate endPc) (by rw [hpc]; exact hIt)
+          (s' := { s with pc := iterPc + 1, stack := y :: s.stack, frames := { locals := [], loop := some l' } :: fs }) ?_ ?_
+        · simp [MJ.Vm.step, hfr, nextLoopItem, hrest, hpc, l']
+        · refine Reach.one (i := .storeLocal x) hSt ?_
+          simp [MJ.Vm.step, storeLocal, assocSet, s2]
+      have hinfo : l'.info = { index0 := idx, length := len, prev := prev, next := ys.head? } := by
+        simp [LoopSt.info, l', hcalls, hlen, hcur]
+      obtain ⟨c0, rs0, hstack⟩ := hne
+      have hrel0 : Rel σ stack { s with frames := fs } := ⟨hFR, hout, hbound, hnodup, ⟨c0, rs0, hstack⟩⟩
+      have hrel2 : Rel { σ with heap := σ.heap ++ [("loop", loopVal { index0 := idx, length := len, prev := prev, next := ys.head? }) :: [(x, y)]] }
+          (σ.heap.length :: stack) s2 :=
+        hrel0.push _ { locals := [(x, y)], loop := some l' } (loop_cell_agrees x y l' _ hx hwl hinfo) s2 rfl rfl
+      obtain ⟨hfl, s3, r3, hpc3, hst3, hrel3, hout3, htl3, hhd3⟩ :=
+        ihB body ctx (σ.heap.length :: stack) _ σ2 fl hbody hsb C (iterPc + 2) a s2 hAt hoof rfl hrel2
+      subst hfl
+      simp only at hev
+      -- the cell of the iteration is dropped: the heap is the one before the loop
+      have htake : σ2.heap.take σ.heap.length = σ.heap := take_of_frame _ _ _ _ (execBlock_frame hbody)
+      rw [htake] at hev
+      -- back to the `Iterate`
+      have hf3 : ∃ loc3, s3.frames = { locals := loc3, loop := some l' } :: fs := by
+        cases hf : s3.frames with
+        | nil => rw [hf] at hhd3; simp [s2] at hhd3
+        | cons f3 fs3 =>
+          rw [hf] at htl3 hhd3
+          simp [s2] at htl3 hhd3
+          exact ⟨f3.locals, by cases f3; simp_all⟩
+      obtain ⟨loc3, hf3⟩ := hf3
+      let s4 : VmState := { s3 with pc := iterPc }
+      have hreach4 : Reach ctx C s3 s4 :=
+        Reach.one' (i := .jump iterPc) _ hJ hpc3 (by simp [MJ.Vm.step, s4])
+      obtain ⟨r3out, hr3⟩ := hrel3.out
+      obtain ⟨s', r5, hpc5, hst5, htl5, hout5, houtt5⟩ :=
+        ihI ctx stack { heap := σ.heap, out := σ2.out } σ' x body ys len (idx + 1) (some y) hev hx hsb
+          C iterPc endPc a s4 l' loc3 fs hIt hSt hAt hoof hJ rfl hf3 hwl (by simp [l', hlen]) (by simp [l', hcalls])
+          (by simp [l']) (by simp [l']) hFR ⟨r3out, hr3⟩ hbound hnodup ⟨c0, rs0, hstack⟩
+      exact ⟨s', hreach2.trans (r3.trans (hreach4.trans r5)), hpc5, by rw [hst5]; exact hst3, htl5, hout5,
+        by rw [houtt5]; exact hout3⟩
+
+
+theorem sim_stmt_step {n} (ihB : SimBlock n) (ihW : SimBinds n) (ihI : SimIters n) : SimStmt (n + 1) := by
   intro st ctx stack σ σ' fl hev hs C base a s hAt hoof hpc hrel
   cases st with
   | text t =>
     simp [exec] at hev
     obtain ⟨rfl, rfl⟩ := hev
     simp only [relStmt] at hAt ⊢
-    refine ⟨by simp, { s with pc := s.pc + 1, outs := MJ.Vm.appendOut t s.outs }, ?_, by simp [hpc], rfl, ?_⟩
-    · exact Reach.one (i := .emitRaw t) (by rw [hpc]; exact hAt.head) (by simp [MJ.Vm.step])
-    · exact hrel.appendOut t _ rfl rfl
+    have hr := hrel.appendOut t { s with pc := s.pc + 1, outs := MJ.Vm.appendOut t s.outs } rfl rfl
+    exact ⟨by simp, { s with pc := s.pc + 1, outs := MJ.Vm.appendOut t s.outs },
+      Reach.one (i := .emitRaw t) (by rw [hpc]; exact hAt.head) (by simp [MJ.Vm.step]),
+      by simp [hpc], rfl, hr.1, hr.2, rfl, rfl⟩
   | emit e =>
     have hse : simpleExpr e = true := by simpa [simpleStmt] using hs
     simp only [exec, bind, Except.bind] at hev
@@ -249,15 +404,17 @@ theorem sim_stmt_step {n} (ihB : SimBlock n) : SimStmt (n + 1) := by
       obtain ⟨rfl, rfl⟩ := hev
       simp only [relStmt] at hAt hoof ⊢
       have r1 := relExpr_correct hv hse hAt.left hoof hpc hrel.env
-      refine ⟨by simp, { s with pc := base + (relExpr e base a).1.length + 1, outs := MJ.Vm.appendOut (render v) s.outs },
-        r1.trans (Reach.one' (i := .emit) _ hAt.right.head rfl (by simp [MJ.Vm.step])), by simp [Nat.add_assoc], rfl, ?_⟩
-      exact hrel.appendOut (render v) _ rfl rfl
+      have hr := hrel.appendOut (render v)
+        { s with pc := base + (relExpr e base a).1.length + 1, outs := MJ.Vm.appendOut (render v) s.outs } rfl rfl
+      exact ⟨by simp, { s with pc := base + (relExpr e base a).1.length + 1, outs := MJ.Vm.appendOut (render v) s.outs },
+        r1.trans (Reach.one' (i := .emit) _ hAt.right.head rfl (by simp [MJ.Vm.step])),
+        by simp [Nat.add_assoc], rfl, hr.1, hr.2, rfl, rfl⟩
   | set target e =>
     cases target with
     | tuple ts => simp [simpleStmt] at hs
     | var x =>
       have hse : simpleExpr e = true := by simpa [simpleStmt] using hs
-      obtain ⟨cell, rs, hstack, hcell⟩ := hrel.cell
+      obtain ⟨cell, rs, hstack⟩ := hrel.nonempty
       subst hstack
       simp only [exec, bind, Except.bind] at hev
       split at hev
@@ -266,18 +423,9 @@ theorem sim_stmt_step {n} (ihB : SimBlock n) : SimStmt (n + 1) := by
         simp [bindTarget, topCell, heapSetAll] at hev
         obtain ⟨rfl, rfl⟩ := hev
         simp only [relStmt] at hAt hoof ⊢
-        have r1 := relExpr_correct hv hse hAt.left hoof hpc hrel.env
-        obtain ⟨f, frest, hfr⟩ : ∃ f frest, s.frames = f :: frest := by
-          cases hf : s.frames with
-          | nil => exact absurd hf hrel.frames
-          | cons f frest => exact ⟨f, frest, rfl⟩
-        refine ⟨by simp, { s with pc := base + (relExpr e base a).1.length + 1, frames := storeLocal x v s.frames },
-          r1.trans (Reach.one' (i := .storeLocal x) _ hAt.right.head rfl (by simp [MJ.Vm.step])),
-          by simp [Nat.add_assoc], rfl, ?_, rfl⟩
-        refine ⟨?_, hrel.out, ⟨cell, rs, rfl, by simpa [heapSet_length] using hcell⟩, by simp [hfr, storeLocal]⟩
-        intro y
-        simp only
-        rw [hfr, lookupFrames_storeLocal, lookup_heapSet ctx σ.heap cell rs x y v hcell, ← hfr, hrel.env y]
+        refine ⟨by simp, ?_⟩
+        have := sim_assign hv hse hAt hoof hpc hrel
+        simpa [Nat.add_assoc] using this
   | ifS c t f =>
     simp only [exec, bind, Except.bind] at hev
     split at hev
@@ -292,20 +440,20 @@ theorem sim_stmt_step {n} (ihB : SimBlock n) : SimStmt (n + 1) := by
         have hj := hAt.left.right.head
         by_cases ht : truthy cv = true
         · simp [ht] at hev
-          obtain ⟨hfl, s2, r2, hpc2, hst2, hrel2, hout2⟩ :=
+          obtain ⟨hfl, s2, r2, hpc2, hst2, hrel2, hout2, htl2, hhd2⟩ :=
             ihB t ctx stack σ σ' fl hev hs'.2 C (base + (relExpr c base a).1.length + 1) (relExpr c base a).2
               { s with pc := base + (relExpr c base a).1.length + 1, stack := s.stack }
-              (At.cast hAt.right (by simp [Nat.add_assoc])) hoof rfl
-              ⟨hrel.env, hrel.out, hrel.cell, hrel.frames⟩
-          refine ⟨hfl, s2, r1.trans (Reach.cons (i := .jumpIfFalse _) hj (by simp [MJ.Vm.step, ht] <;> rfl) r2), ?_, hst2, hrel2, hout2⟩
-          simp [hpc2, Nat.add_assoc] <;> omega
+              (At.cast hAt.right (by simp [Nat.add_assoc])) hoof rfl (hrel.same _ rfl rfl)
+          refine ⟨hfl, s2, r1.trans (Reach.cons (i := .jumpIfFalse _) hj (by simp [MJ.Vm.step, ht] <;> rfl) r2), ?_,
+            hst2, hrel2, hout2, htl2, hhd2⟩
+          simp only [hpc2, List.length_append, List.length_cons, List.length_nil]; omega
         · simp [ht] at hev
           obtain ⟨rfl, rfl⟩ := execBlock_nil hev
           refine ⟨rfl, { s with pc := base + (relExpr c base a).1.length + 1 +
               (relBlock t (base + (relExpr c base a).1.length + 1) (relExpr c base a).2).1.length },
             r1.trans (Reach.one (i := .jumpIfFalse _) hj (by simp [MJ.Vm.step, ht])), ?_, rfl,
-            ⟨hrel.env, hrel.out, hrel.cell, hrel.frames⟩, rfl⟩
-          simp [Nat.add_assoc] <;> omega
+            hrel.same _ rfl rfl, rfl, rfl, rfl⟩
+          simp only [List.length_append, List.length_cons, List.length_nil]; omega
       | cons f0 fs =>
         have hs' : (simpleExpr c = true ∧ simpleBlock t = true) ∧ simpleBlock (f0 :: fs) = true := by
           simpa [simpleStmt] using hs
@@ -316,11 +464,10 @@ theorem sim_stmt_step {n} (ihB : SimBlock n) : SimStmt (n + 1) := by
         have hj := hAt.left.left.left.right.head
         by_cases ht : truthy cv = true
         · simp [ht] at hev
-          obtain ⟨hfl, s2, r2, hpc2, hst2, hrel2, hout2⟩ :=
+          obtain ⟨hfl, s2, r2, hpc2, hst2, hrel2, hout2, htl2, hhd2⟩ :=
             ihB t ctx stack σ σ' fl hev hs'.1.2 C (base + (relExpr c base a).1.length + 1) (relExpr c base a).2
               { s with pc := base + (relExpr c base a).1.length + 1, stack := s.stack }
-              (At.cast hAt.left.left.right (by simp [Nat.add_assoc])) ho2 rfl
-              ⟨hrel.env, hrel.out, hrel.cell, hrel.frames⟩
+              (At.cast hAt.left.left.right (by simp [Nat.add_assoc])) ho2 rfl (hrel.same _ rfl rfl)
           have hj2 := hAt.left.right.head
           refine ⟨hfl, { s2 with pc := base + (relExpr c base a).1.length + 1 +
                 (relBlock t (base + (relExpr c base a).1.length + 1) (relExpr c base a).2).1.length + 1 +
@@ -331,21 +478,147 @@ theorem sim_stmt_step {n} (ihB : SimBlock n) : SimStmt (n + 1) := by
               (r2.trans (Reach.one' (i := .jump _) _ hj2
                 (by simp only [hpc2, List.length_append, List.length_cons, List.length_nil]; omega)
                 (by simp [MJ.Vm.step])))),
-            ?_, hst2, ⟨hrel2.env, hrel2.out, hrel2.cell, hrel2.frames⟩, hout2⟩
+            ?_, hst2, hrel2.same _ rfl rfl, hout2, htl2, hhd2⟩
           simp only [List.length_append, List.length_cons, List.length_nil]; omega
         · simp [ht] at hev
-          obtain ⟨hfl, s2, r2, hpc2, hst2, hrel2, hout2⟩ :=
+          obtain ⟨hfl, s2, r2, hpc2, hst2, hrel2, hout2, htl2, hhd2⟩ :=
             ihB (f0 :: fs) ctx stack σ σ' fl hev hs'.2 C
               (base + (relExpr c base a).1.length + 1 + (relBlock t (base + (relExpr c base a).1.length + 1) (relExpr c base a).2).1.length + 1)
               (relBlock t (base + (relExpr c base a).1.length + 1) (relExpr c base a).2).2
               { s with pc := base + (relExpr c base a).1.length + 1 + (relBlock t (base + (relExpr c base a).1.length + 1) (relExpr c base a).2).1.length + 1, stack := s.stack }
-              (At.cast hAt.right (by simp [Nat.add_assoc]; try omega)) hoof rfl
-              ⟨hrel.env, hrel.out, hrel.cell, hrel.frames⟩
-          refine ⟨hfl, s2, r1.trans (Reach.cons (i := .jumpIfFalse _) hj (by simp [MJ.Vm.step, ht] <;> rfl) r2), ?_, hst2, hrel2, hout2⟩
-          simp [hpc2, Nat.add_assoc] <;> omega
-  | forS _ _ _ _ _ => simp [simpleStmt] at hs
+              (At.cast hAt.right (by simp [Nat.add_assoc]; try omega)) hoof rfl (hrel.same _ rfl rfl)
+          refine ⟨hfl, s2, r1.trans (Reach.cons (i := .jumpIfFalse _) hj (by simp [MJ.Vm.step, ht] <;> rfl) r2), ?_,
+            hst2, hrel2, hout2, htl2, hhd2⟩
+          simp only [hpc2, List.length_append, List.length_cons, List.length_nil]; omega
+  | withS binds body =>
+    have hs' : simpleBinds binds = true ∧ simpleBlock body = true := by simpa [simpleStmt] using hs
+    simp only [exec, bind, Except.bind] at hev
+    split at hev
+    · simp at hev
+    · rename_i heap1 hw
+      split at hev
+      · simp at hev
+      · rename_i r hr
+        obtain ⟨σ2, fl2⟩ := r
+        simp at hev
+        obtain ⟨rfl, rfl⟩ := hev
+        simp only [relStmt] at hAt hoof ⊢
+        have ho1 := oof_false_of_relBlock hoof
+        -- PushWith
+        let s1 : VmState := { s with pc := base + 1, frames := {} :: s.frames }
+        have hreach1 : Reach ctx C s s1 :=
+          Reach.one (i := .pushWith) (by rw [hpc]; exact hAt.left.left.head) (by simp [MJ.Vm.step, s1, hpc])
+        have hrel1 : Rel { heap := σ.heap ++ [[]], out := σ.out } (σ.heap.length :: stack) s1 :=
+          hrel.push [] {} (by intro x; simp [assocGet, frameLookup]) s1 rfl rfl
+        -- the bindings
+        obtain ⟨s2, r2, hpc2, hst2, hrel2, hout2, htl2, hhd2⟩ :=
+          ihW binds ctx (σ.heap.length :: stack) _ heap1 σ.out hw hs'.1 C (base + 1) a s1
+            (At.cast hAt.left.left.right (by simp only [List.length_cons, List.length_nil])) ho1 rfl hrel1
+        -- the body
+        obtain ⟨hfl, s3, r3, hpc3, hst3, hrel3, hout3, htl3, hhd3⟩ :=
+          ihB body ctx (σ.heap.length :: stack) _ σ2 fl2 hr hs'.2 C (base + 1 + (relBinds binds (base + 1) a).1.length)
+            (relBinds binds (base + 1) a).2 s2
+            (At.cast hAt.left.right (by simp only [List.length_append, List.length_cons, List.length_nil]; omega)) hoof hpc2 hrel2
+        -- PopFrame: the scope is dropped on both sides
+        have htake : σ2.heap.take σ.heap.length = σ.heap :=
+          take_of_frame σ.heap [] stack σ2.heap ((bindWith_frame _ _ _ _ _ _ hw).trans (execBlock_frame hr))
+        have hfr3 : s3.frames.tail = s.frames := by rw [htl3, htl2]; rfl
+        obtain ⟨r3out, hr3⟩ := hrel3.out
+        let s4 : VmState := { s3 with pc := s3.pc + 1, frames := s3.frames.tail }
+        have hreach4 : Reach ctx C s3 s4 :=
+          Reach.one' (i := .popFrame) _ hAt.right.head
+            (by simp only [hpc3, List.length_append, List.length_cons, List.length_nil]; omega)
+            (by simp [MJ.Vm.step, s4])
+        refine ⟨hfl, s4, hreach1.trans (r2.trans (r3.trans hreach4)), ?_, ?_, ?_, ?_, ?_, ?_⟩
+        · simp only [s4, hpc3, List.length_append, List.length_cons, List.length_nil]; omega
+        · simp [s4, hst3, hst2, s1]
+        · refine ⟨?_, ⟨r3out, by simp [s4, hr3]⟩, ?_, hrel.nodup, hrel.nonempty⟩
+          · simp only [s4, hfr3, htake]; exact hrel.frames
+          · simp only [htake]; exact hrel.bound
+        · simp [s4, hout3, hout2, s1]
+        · simp [s4, hfr3]
+        · simp [s4, hfr3]
+  | forS target iter flt body els =>
+    cases target with
+    | tuple ts => simp [simpleStmt] at hs
+    | var x =>
+      cases flt with
+      | some c => simp [simpleStmt] at hs
+      | none =>
+        cases els with
+        | cons e0 es => simp [simpleStmt] at hs
+        | nil =>
+          have hs' : (¬ x = "loop" ∧ simpleExpr iter = true) ∧ simpleBlock body = true := by
+            simpa [simpleStmt] using hs
+          simp only [exec, bind, Except.bind] at hev
+          split at hev
+          · simp at hev
+          · rename_i v hv
+            split at hev
+            · simp at hev
+            · rename_i xs hxs
+              -- the reference semantics in terms of `execIters`
+              have hiters : ∃ σi, execIters n ctx stack σ (.var x) body (xs.zip (loopInfos (isSized v) xs)) = .ok σi ∧
+                  σ' = σi ∧ fl = .normal := by
+                cases xs with
+                | nil =>
+                  obtain ⟨rfl, rfl⟩ := execBlock_nil hev
+                  cases n with
+                  | zero => simp [execBlock] at hev
+                  | succ m => exact ⟨σ', by simp [execIters, loopInfos, loopInfosFrom], rfl, rfl⟩
+                | cons y ys =>
+                  simp only at hev
+                  split at hev
+                  · simp at hev
+                  · rename_i σi hi
+                    simp at hev
+                    exact ⟨σi, hi, hev.1.symm, hev.2.symm⟩
+              obtain ⟨σi, hit, rfl, rfl⟩ := hiters
+              simp only [relStmt] at hAt hoof ⊢
+              have ho1 := oof_false_of_relBlock hoof
+              have r1 := relExpr_correct hv hs'.1.2 hAt.left.left.left ho1 hpc hrel.env
+              -- PushLoop
+              let l0 : LoopSt := { withLoopVar := true, len := if isSized v then some xs.length else none,
+                                   calls := 0, iterated := false, prev := none, cur := none, rest := xs }
+              let s2 : VmState := { s with pc := base + (relExpr iter base a).1.length + 1,
+                                           frames := { locals := [], loop := some l0 } :: s.frames }
+              have hreach2 : Reach ctx C { s with pc := base + (relExpr iter base a).1.length, stack := v :: s.stack } s2 :=
+                Reach.one' (i := .pushLoop 1) _ (hAt.left.left.right.head) rfl
+                  (by simp [MJ.Vm.step, hxs, Except.map, s2, l0])
+              have e3 : base + (relExpr iter base a).1.length + 1 + 2 = base + (relExpr iter base a).1.length + 3 := by omega
+              obtain ⟨c0, rs0, hstack⟩ := hrel.nonempty
+              obtain ⟨s5, r5, hpc5, hst5, htl5, hout5, houtt5⟩ :=
+                ihI ctx stack σ σ' x body xs (if isSized v then some xs.length else none) 0 none
+                  (by simpa [loopInfos] using hit) hs'.1.1 hs'.2 C
+                  (base + (relExpr iter base a).1.length + 1)
+                  (base + (relExpr iter base a).1.length + 3 +
+                    (relBlock body (base + (relExpr iter base a).1.length + 3) (relExpr iter base a).2).1.length + 1)
+                  (relExpr iter base a).2 s2 l0 [] s.frames
+                  (by have := hAt.left.left.right.tail.head; simpa [Nat.add_assoc] using this)
+                  (by have := hAt.left.left.right.tail.tail.head; simpa [Nat.add_assoc] using this)
+                  (by rw [e3]; exact At.cast hAt.left.right (by simp [Nat.add_assoc]))
+                  (by rw [e3]; exact hoof)
+                  (by rw [e3]; have := hAt.right.head
+                      refine Eq.trans (congrArg (fun k => C[k]?) ?_) this
+                      simp only [List.length_append, List.length_cons, List.length_nil]; omega)
+                  rfl rfl rfl rfl rfl rfl rfl hrel.frames hrel.out hrel.bound hrel.nodup ⟨c0, rs0, hstack⟩
+              -- PopLoopFrame
+              have hheap : σ'.heap = σ.heap := execIters_heap hit
+              let s6 : VmState := { s5 with pc := s5.pc + 1, frames := s5.frames.tail }
+              have hreach6 : Reach ctx C s5 s6 :=
+                Reach.one' (i := .popLoopFrame) _ hAt.right.tail.head
+                  (by simp only [hpc5, List.length_append, List.length_cons, List.length_nil]; omega)
+                  (by simp [MJ.Vm.step, s6])
+              refine ⟨by simp, s6, r1.trans (hreach2.trans (r5.trans hreach6)), ?_, ?_, ?_, ?_, ?_, ?_⟩
+              · simp only [s6, hpc5, List.length_append, List.length_cons, List.length_nil]; omega
+              · simp [s6, hst5, s2]
+              · refine ⟨?_, by simpa [s6] using hout5, ?_, hrel.nodup, hrel.nonempty⟩
+                · simp only [s6, htl5, hheap]; exact hrel.frames
+                · simp only [hheap]; exact hrel.bound
+              · simp [s6, houtt5, s2]
+              · simp [s6, htl5]
+              · simp [s6, htl5]
   | setBlock _ _ _ => simp [simpleStmt] at hs
-  | withS _ _ => simp [simpleStmt] at hs
   | filterBlock _ _ => simp [simpleStmt] at hs
   | macroS _ _ _ _ _ => simp [simpleStmt] at hs
   | callBlock _ _ _ _ _ _ => simp [simpleStmt] at hs
@@ -353,15 +626,21 @@ theorem sim_stmt_step {n} (ihB : SimBlock n) : SimStmt (n + 1) := by
   | continueS => simp [simpleStmt] at hs
 
 
-theorem sim_stmt_all : ∀ n, SimStmt n ∧ SimBlock n := by
+theorem sim_stmt_all : ∀ n, SimStmt n ∧ SimBlock n ∧ SimBinds n ∧ SimIters n := by
   intro n
   induction n with
   | zero =>
-    exact ⟨fun st ctx stack σ σ' fl h => by simp [exec] at h, fun ss ctx stack σ σ' fl h => by simp [execBlock] at h⟩
-  | succ n ih => exact ⟨sim_stmt_step ih.2, sim_block_step ih.1 ih.2⟩
+    refine ⟨fun st ctx stack σ σ' fl h => by simp [exec] at h,
+      fun ss ctx stack σ σ' fl h => by simp [execBlock] at h,
+      fun binds ctx stack heap heap' out h => by simp [bindWith] at h,
+      fun ctx stack σ σ' x body xs len idx prev h => by simp [execIters] at h⟩
+  | succ n ih =>
+    obtain ⟨hS, hB, hW, hI⟩ := ih
+    exact ⟨sim_stmt_step hB hW hI, sim_block_step hS hB, sim_binds_step hW, sim_iters_step hB hI⟩
 
-/-- the fragment of stage 3: text, `{{ e }}`, `set x = e`, `if`/`elif`/`else` over expressions
-without chained comparisons, calls and keyword arguments -/
+/-- the fragment of stage 3: text, `{{ e }}`, `set x = e`, `if`/`elif`/`else`, `with x = e, …`,
+`for x in e` (no filter / else / loop controls) over expressions without chained comparisons,
+calls and keyword arguments -/
 def Fragment (prog : List Stmt) : Prop := simpleBlock prog = true
 
 /-- **`vm_refines_eval_partial`**: for every template of the fragment and every context, if the
@@ -371,7 +650,6 @@ theorem vm_refines_eval_partial (prog : List Stmt) (hfrag : Fragment prog) (ctx 
     (hcode : compileTemplate prog = some code) (fuel : Nat) (out : String)
     (hev : renderTemplate fuel ctx prog = .ok out) :
     ∃ k, ∀ j, renderCode (k + j) ctx code = .ok out := by
-  -- the generated code is the relative code of the block
   have heq := cBlock_eq_rel prog {} hfrag
   simp only [compileTemplate] at hcode
   split at hcode
@@ -386,19 +664,17 @@ theorem vm_refines_eval_partial (prog : List Stmt) (hfrag : Fragment prog) (ctx 
       simpa [CG.oof, CG.extend, CG.next] using this
     have hc : code = (relBlock prog 0 {}).1 := by
       rw [← hcode, heq]; simp [CG.extend, CG.next]
-    -- run the reference semantics
     simp only [renderTemplate] at hev
     split at hev
     · rename_i σ fl hexec
       simp at hev; subst hev
       have hAt : At code 0 (relBlock prog 0 {}).1 := by
         rw [hc]; intro k _; simp
-      have hrel0 : Rel ctx { heap := [[]], out := "" } [0] ({} : VmState) := by
-        refine ⟨?_, ⟨[], rfl⟩, ⟨0, [], rfl, by simp⟩, by simp⟩
-        intro x
-        simp [lookupFrames, lookup, lookupIn, assocGet]
-      obtain ⟨_, s', hreach, hpc, _, hrel', hout⟩ :=
-        (sim_stmt_all fuel).2 prog ctx [0] _ σ fl hexec hfrag code 0 {} {} hAt hoof rfl hrel0
+      have hrel0 : Rel { heap := [[]], out := "" } [0] ({} : VmState) := by
+        refine ⟨?_, ⟨[], rfl⟩, by simp, by simp, ⟨0, [], rfl⟩⟩
+        exact ⟨⟨[], by simp, by intro x; simp [assocGet, frameLookup]⟩, trivial⟩
+      obtain ⟨_, s', hreach, hpc, _, hrel', hout, _, _⟩ :=
+        (sim_stmt_all fuel).2.1 prog ctx [0] _ σ fl hexec hfrag code 0 {} {} hAt hoof rfl hrel0
       have hend : code[s'.pc]? = none := by
         rw [hpc, hc]; simp
       obtain ⟨k, hk⟩ := hreach.toRun hend
